@@ -188,15 +188,21 @@ impl<R> Arguments<R> {
             pos_args.push(arg);
         }
 
+        // keyword-only arguments without a default come first, so that `kw_defaults`
+        // lines up with the tail of `kwonlyargs` (see [`PythonArguments`])
         let mut kw_only = Vec::with_capacity(kwonlyargs.len());
+        let mut kw_only_with_default = Vec::new();
         let mut kw_defaults = Vec::new();
         for arg in kwonlyargs {
             let (arg, default) = arg.to_arg();
             if let Some(default) = default {
                 kw_defaults.push(*default);
+                kw_only_with_default.push(arg);
+            } else {
+                kw_only.push(arg);
             }
-            kw_only.push(arg);
         }
+        kw_only.extend(kw_only_with_default);
 
         PythonArguments {
             range: range.clone(),
@@ -238,15 +244,21 @@ impl<R> Arguments<R> {
             pos_args.push(arg);
         }
 
+        // keyword-only arguments without a default come first, so that `kw_defaults`
+        // lines up with the tail of `kwonlyargs` (see [`PythonArguments`])
         let mut kw_only = Vec::with_capacity(kwonlyargs.len());
+        let mut kw_only_with_default = Vec::new();
         let mut kw_defaults = Vec::new();
         for arg in kwonlyargs {
             let (arg, default) = arg.into_arg();
             if let Some(default) = default {
                 kw_defaults.push(*default);
+                kw_only_with_default.push(arg);
+            } else {
+                kw_only.push(arg);
             }
-            kw_only.push(arg);
         }
+        kw_only.extend(kw_only_with_default);
 
         PythonArguments {
             range,
@@ -299,7 +311,7 @@ impl<R> PythonArguments<R> {
 
         let mut kw_only = Vec::with_capacity(kwonlyargs.len());
         let kw_defaults: Vec<_> = std::iter::repeat_with(|| None)
-            .take(kw_only.len().saturating_sub(kw_defaults.len()))
+            .take(kwonlyargs.len().saturating_sub(kw_defaults.len()))
             .chain(kw_defaults.into_iter().map(Some))
             .collect();
         for (arg, default) in std::iter::zip(kwonlyargs, kw_defaults) {
